@@ -73,6 +73,7 @@ fn op_strategy(f: Focus, nscripts: u16, nslots: u8) -> BoxedStrategy<Op> {
         // a key the driver obtained, cancelled from inside a handler
         (cw / 2).max(1) => (0u8..4).prop_map(|slot| Op::CancelDriver { slot }),
         2 => Just(Op::ReadTime),
+        1 => Just(Op::Yield),
         2 => (0..nscripts).prop_map(|script| Op::Send { out: 0, script }),
     ]
     .boxed()
